@@ -150,7 +150,7 @@ func mkInput(t *gen.Ty, params string, v reflect.Value) input {
 
 func genAll(ctx *vh.Ctx) {
 	c := gen.NewRand(ctx.Seed, "C18")
-	n := 700
+	n := 500
 	if ctx.Thorough {
 		n = 20000
 	}
